@@ -291,6 +291,31 @@ def run(chk, replay=None):
     acc, rej = chk.validate_traces('TraceCartRegion', 'Trace_CartRegion.cfg', rtraces, chunk=150, timeout=1500)
     for i, diag in rej:
         chk.violation('region:rebuilt region lookup not the containing cell', {'case': rmeta[i]})
+    # larger lattices with spacings that need more than five decimals (1/64, 1/128, 0.000125): the spacing itself must
+    # survive, or the rebuilt cell edges drift with the column / row index
+    for x0, y0, dh, nx, ny in (('-3', '40', '0.015625', 64, 48), ('10.5', '-2', '0.0078125', 40, 40), ('0', '0', '0.000125', 30, 20)):
+        xe, ye = c01.lattice_edges(x0, dh, nx), c01.lattice_edges(y0, dh, ny)
+        dhf = float(Fraction(dh))
+        cells = [[i, j] for j in range(ny) for i in range(nx) if (i * 7 + j * 3) % 11 != 0 or i in (0, nx - 1) or j in (0, ny - 1)]
+        case = {'nx': nx, 'ny': ny, 'polys': cells, 'flags': []}
+        region = guarded(c01.build_region, case, xe, ye, dhf, 'from_origins')
+        rebuilt = region if isinstance(region, Raised) else guarded(lambda: CartesianGrid2D.from_dict(region.to_dict()))
+        chk.count()
+        if isinstance(rebuilt, Raised):
+            chk.violation('region:from_dict raised', {'dh': dh, 'err': repr(rebuilt)})
+            continue
+        lons, lats = [], []
+        for i in range(0, nx, 3):
+            for j in range(0, ny, 3):
+                for fx, fy in ((0.0, 0.0), (0.5, 0.5), (0.999, 0.001), (1e-4, 0.9999)):
+                    lons.append(xe[i] + fx * dhf)
+                    lats.append(ye[j] + fy * dhf)
+        o1 = c01.observe(region, lons, lats, numpy)
+        o2 = c01.observe(rebuilt, lons, lats, numpy)
+        if isinstance(o1, Raised) or isinstance(o2, Raised) or not numpy.array_equal(o1[0], o2[0]) or not numpy.array_equal(o1[1], o2[1]):
+            nd = -1 if isinstance(o1, Raised) or isinstance(o2, Raised) else int((o1[0] != o2[0]).sum())
+            chk.violation('region:rebuilt region assigns a point to another cell', {'dh': dh, 'nx': nx, 'ny': ny, 'points_differing': nd})
+        chk.nontrivial('region-fine|%s' % dh)
     chk.notes['regions_round_tripped'] = len(rtraces)
     chk.exhaustive = True
     chk.assume('non-numeric test distributions (the word "normal", ("poisson", mean)) are only required to load, not to compare equal')
